@@ -3,7 +3,12 @@
 # Confirms a seeded change in its scratch worktree (build, pinned suite, demo fails with / passes without),
 # then applies it to /repo, runs the property's check, and undoes it. Results -> /verif/seeded/<seed-id>/.
 set -u
-sid=$1; prop=$2; wt=$3; pkg=$4; run=$5; tier=${6:-quick}
+sid=$1; prop=$2; wt=$3; pkg=${4:-}; run=${5:-}; tier=${6:-quick}
+if [ -z "$pkg" ]; then
+  # demo_location.txt: "<relative path of the demo file> <go package> <-run regexp>"
+  read -r dpath pkg run < $wt/_mutation/demo_location.txt
+  rm -f $wt/$dpath   # placed only after the pinned suite has run
+fi
 export PATH=/opt/veriftools/go1.26.8/bin:$PATH GOTOOLCHAIN=local GOFLAGS=-mod=mod GOPROXY=off GOSUMDB=off
 out=/verif/seeded/$sid; mkdir -p $out
 cp $wt/_mutation/patch.diff $out/patch.diff
@@ -18,6 +23,7 @@ echo "== build" >> $log
 go build ./sql/... ./memory/... . >> $log 2>&1; echo "build rc=$?" >> $log
 echo "== pinned suite with patch" >> $log
 go test -vet=off -count=1 ./errguard/ ./internal/... ./sql/in_mem_table/ ./sql/sqlredact/ ./sql/planbuilder/dateparse/ ./optgen/cmd/support/ ./enginetest/scriptgen/setup/ 2>&1 | grep -v "no test files" >> $log; echo "suite rc=${PIPESTATUS[0]}" >> $log
+if [ -n "${dpath:-}" ]; then cp $wt/_mutation/$(basename $dpath) $wt/$dpath; fi
 echo "== demo with patch (must FAIL)" >> $log
 go test -vet=off -count=1 -run "$run" $pkg > $out/demo_with_patch.log 2>&1; rc1=$?; echo "demo-with-patch rc=$rc1" >> $log
 git apply -R _mutation/patch.diff
